@@ -2,15 +2,14 @@
     unsupported values give an error, not a crash.
     Statements only; every proof is [exact <lemma>] (lemmas in Codec/Prim2Proofs.v, ReflectProofs.v).
 
-    The model (Codec/Reflect.v) keeps the crashes of the Go code: an outcome is
+    The model (Codec/Reflect.v, the code as it is now, i.e. after the fix commits "reader and writer crashed
+    on nil pointers of basic types" and "readReflect trusted a wire-supplied slice length") keeps the crashes
+    the Go code could have: an outcome is
       OOk a | OErr e | OPanic why | OFuel | OIll
     ([OFuel]: the model's loop fuel ran out — never a normal value, excluded below; [OIll]: the (type,
     payload) pair is not a Go value), and the reader returns, next to its outcome, a cost meter
       (bytes requested from the allocator, loop iterations)
-    which is how "never allocates / loops out of proportion to the input" is stated.  An out-of-memory
-    death of the Go runtime is "the meter exceeds the memory there is": the witnesses below make the meter
-    2^35 for a 4-byte input; on the real code this is a fatal "out of memory" under a 2-4 GiB limit
-    (reproduced by the harness in a child process).
+    which is how "never allocates / loops out of proportion to the input" is stated; [work m] is their sum.
     [okerr o] := (exists a, o = OOk a) \/ (exists e, o = OErr e). *)
 From Coq Require Import List NArith ZArith Bool.
 From Vivid Require Import Codec.Prim Codec.PrimProofs Codec.Prim2 Codec.Prim2Proofs Codec.Reflect Codec.ReflectProofs.
@@ -18,46 +17,33 @@ Import ListNotations.
 Local Open Scope N_scope.
 
 (** ** (a) encoding: every Go value, of every kind *)
-(** writeReflect (what Write reaches for every nested position: struct fields, elements, pointer targets)
-    returns bytes or an error for EVERY value: unsupported kinds, named types, nil pointers, nil interfaces,
-    nil fields included *)
+(** Write returns bytes or an error for EVERY value: unsupported kinds, named types, nil pointers at top level
+    and nested, nil interfaces, nil fields included; so does writeReflect (what Write reaches for struct
+    fields, elements, pointer targets).  Both are structurally recursive on the value: nothing can recurse
+    for ever, the recursion depth is the nesting depth of the value. *)
+Theorem C13_write_total ty v : has_typeb ty v = true -> okerr (write ty v).
+Proof. exact (write_total ty v). Qed.
 Theorem C13_writeReflect_total ty v : has_typeb ty v = true -> okerr (wrefl ty v).
 Proof. exact (wrefl_total v ty). Qed.
-(** Write itself: bytes, an error, or — exactly for a typed nil pointer to one of the twelve basic types
-    at top level — a nil dereference *)
-Theorem C13_write_total_partial ty v : has_typeb ty v = true ->
-  okerr (write ty v) \/ (exists b, ty = TPtr (TBasic b) /\ v = VNil /\ write ty v = OPanic WNilDeref).
-Proof. exact (write_total ty v). Qed.
-Example C13_write_total_example : has_typeb ex_ty ex_val = true /\ has_typeb (TPtr (TPtr TIface)) (VPtr VNil) = true.
-Proof. split; vm_compute; reflexivity. Qed.
-(** REFUTED at full strength: Write(( *T)(nil)) panics for T = byte, int8 ... string (the type switch
-    dereferences without a nil check; only *[]byte is checked) *)
-Theorem C13_write_nil_pointer_refuted :
-  forall b, has_typeb (TPtr (TBasic b)) VNil = true /\ write (TPtr (TBasic b)) VNil = OPanic WNilDeref.
-Proof. exact w_write_nil_ptr. Qed.
-Theorem C13_write_nil_bytes_pointer : write (TPtr (TSlice false (TBasic BU8))) VNil = OOk [0; 0; 0; 0].
-Proof. exact w_write_nil_bytes_ptr. Qed.
-(** WriteFrom: the same, for every list of values *)
-Theorem C13_write_from_total_partial l : forallb (fun p => has_typeb (fst p) (snd p)) l = true ->
-  okerr (write_from l) \/ write_from l = OPanic WNilDeref.
+Example C13_write_total_example :
+  has_typeb ex_ty ex_val = true /\ has_typeb (TPtr (TPtr TIface)) (VPtr VNil) = true /\ has_typeb (TPtr (TBasic BI8)) VNil = true.
+Proof. repeat split; vm_compute; reflexivity. Qed.
+Theorem C13_write_from_total l : forallb (fun p => has_typeb (fst p) (snd p)) l = true -> okerr (write_from l).
 Proof. exact (write_from_total l). Qed.
-Theorem C13_write_from_total l :
-  forallb (fun p => has_typeb (fst p) (snd p)) l = true -> forallb (fun p => negb (nil_basic_ptr p)) l = true -> okerr (write_from l).
-Proof. exact (write_from_okerr l). Qed.
 Example C13_write_from_example :
-  forallb (fun p => has_typeb (fst p) (snd p)) [(TMap, VOpaque); (ex_ty, ex_val)] = true
-  /\ forallb (fun p => negb (nil_basic_ptr p)) [(TMap, VOpaque); (ex_ty, ex_val)] = true.
-Proof. split; vm_compute; reflexivity. Qed.
-(** the fix commit's claim, complete: int, uint, named basic types, maps, channels, functions, nil interface,
-    nested nil pointers are errors (no recursion back into Write: [wrefl] is structurally recursive on the
-    value, so there is nothing left that could recurse for ever) *)
+  forallb (fun p => has_typeb (fst p) (snd p)) [(TMap, VOpaque); (ex_ty, ex_val); (TPtr (TBasic BStr), VNil)] = true.
+Proof. vm_compute. reflexivity. Qed.
+(** which error: int, uint, named basic types, maps, channels, functions, nil interface: "unsupported type";
+    a nil pointer of any type (top level or nested): "cannot write nil pointer" — except a nil *[]byte, which
+    is written as an empty slice; pointer and interface targets cannot be read *)
 Theorem C13_unsupported_is_error :
   (forall b v, basic_ok b v = true -> write (TNamed b) v = OErr EUnsupported /\ forall bs, fst (read (TNamed b) bs) = OErr EUnsupported) /\
   (forall z, write TInt (VZ z) = OErr EUnsupported /\ forall bs, fst (read TInt bs) = OErr EUnsupported) /\
   (forall n, write TUint (VN n) = OErr EUnsupported /\ forall bs, fst (read TUint bs) = OErr EUnsupported) /\
   (forall v, v = VNil \/ v = VOpaque -> write TMap v = OErr EUnsupported /\ write TChan v = OErr EUnsupported /\ write TFunc v = OErr EUnsupported) /\
   write TIface VNil = OErr EUnsupported /\
-  (forall t, (forall b, t <> TBasic b) -> t <> TSlice false (TBasic BU8) -> write (TPtr t) VNil = OErr EInvalid) /\
+  (forall t, t <> TSlice false (TBasic BU8) -> write (TPtr t) VNil = OErr EInvalid) /\
+  write (TPtr (TSlice false (TBasic BU8))) VNil = OOk [0; 0; 0; 0] /\
   (forall t bs, fst (read (TPtr t) bs) = OErr EUnsupported) /\ (forall bs, fst (read TIface bs) = OErr EUnsupported).
 Proof. exact unsupported_kinds. Qed.
 
@@ -75,6 +61,11 @@ Theorem C13_read_into_total tys bs :
   (exists vs r h, fst (read_into tys bs) = OOk (vs, r) /\ bs = h ++ r /\ length vs = length tys)
   \/ (exists e, fst (read_into tys bs) = OErr e).
 Proof. exact (read_into_total tys bs). Qed.
+(** Read called with a typed nil pointer (of any type), a non-pointer or nil: an error, nothing is read *)
+Theorem C13_read_call_total tg bs : okerr (read_call tg bs).
+Proof. exact (read_call_total tg bs). Qed.
+Theorem C13_read_nil_target ty bs : read_call (TgtNilPtr ty) bs = OErr EInvalid /\ read_call TgtNonPtr bs = OErr EInvalid.
+Proof. exact (read_nil_target ty bs). Qed.
 (** the varint readers on every byte string: a value, "unexpected EOF" (n = 0) or "overflow" (n < 0) *)
 Theorem C13_uvarint_total bs :
   (exists v r, rd_uvarint bs = Ok (v, r)) \/ rd_uvarint bs = Err EEOF \/ rd_uvarint bs = Err EOverflow.
@@ -83,7 +74,7 @@ Theorem C13_varint_total bs :
   (exists v r, rd_varint bs = Ok (v, r)) \/ rd_varint bs = Err EEOF \/ rd_varint bs = Err EOverflow.
 Proof. exact (rd_varint_total bs). Qed.
 (** n = 0 exactly on at most ten continuation bytes; an eleventh byte after ten continuation bytes overflows;
-    a decoded value fits 64 bits and took 1..10 bytes *)
+    a decoded value fits 64 bits *)
 Theorem C13_uvarint_eof bs : rd_uvarint bs = Err EEOF <-> forallb (fun b => 128 <=? b) bs = true /\ (length bs <= 10)%nat.
 Proof. exact (rd_uvarint_eof bs). Qed.
 Theorem C13_uvarint_overflow h c rest : length h = 10%nat -> forallb (fun b => 128 <=? b) h = true -> rd_uvarint (h ++ c :: rest) = Err EOverflow.
@@ -96,43 +87,39 @@ Example C13_uvarint_bound_example : wf_bytes [255; 255; 255; 255; 255; 255; 255;
   /\ rd_uvarint [255; 255; 255; 255; 255; 255; 255; 255; 255; 1] = Ok (18446744073709551615, []).
 Proof. split; vm_compute; reflexivity. Qed.
 
-(** Read called with something that is not a non-nil pointer: an error — except a typed nil pointer to a basic
-    type or to []byte, where the type switch reads the value and then assigns through the nil pointer *)
-Theorem C13_read_call_total_partial tg bs :
-  okerr (read_call tg bs) \/ (read_call tg bs = OPanic WNilDeref /\ exists t, tg = TgtNilPtr t).
-Proof. exact (read_call_total tg bs). Qed.
-Theorem C13_read_nil_target_refuted :
-  read_call (TgtNilPtr (TBasic BI8)) [7] = OPanic WNilDeref /\ read_call (TgtNilPtr (TBasic BI8)) [] = OErr EEOF
-  /\ read_call (TgtNilPtr (TStruct [])) [7] = OErr EInvalid /\ read_call TgtNonPtr [7] = OErr EInvalid.
-Proof. exact w_read_nil_target. Qed.
-
-(** allocation and work.  [cb m L K S] := allocated + 2*remaining <= 2*L + K  /\  iterations <= S.
-    For every type WITHOUT a reflective slice (strings and []byte allowed; arrays and structs nested
-    arbitrarily) and every input: at most 2 bytes allocated per input byte consumed plus a constant fixed
-    by the type (its temporaries), and a number of iterations fixed by the type *)
-Theorem C13_cost_partial ty bs : static_ty ty = true -> cb (read ty bs) (N.of_nat (length bs)) (kconst ty) (kconst ty).
-Proof. exact (fun H => cost_static ty H bs). Qed.
-Example C13_cost_partial_example :
-  static_ty (TStruct [(true, TBasic BStr); (true, TArray 3 (TStruct [(true, TSlice false (TBasic BU8)); (false, TSlice false TInt)]))]) = true.
-Proof. reflexivity. Qed.
-(** REFUTED for reflective slices: reflect.MakeSlice(type, n, n) with the wire's uint32 n runs BEFORE any
-    element is read: the meter is at least n * sizeof(element), whatever follows in the input; and when the
-    element type occupies no bytes on the wire the loop runs n times without consuming input *)
-Theorem C13_slice_alloc_is_wire_supplied nm e bs n t :
-  negb nm && match e with TBasic BU8 => true | _ => false end = false -> rd_u32 bs = Ok (n, t) ->
-  n * tsize e <= fst (snd (read (TSlice nm e) bs)) /\ (wire0 e = true -> snd (snd (read (TSlice nm e) bs)) = n).
-Proof. exact (slice_cost_wire nm e bs n t). Qed.
-Example C13_slice_alloc_example :
-  negb false && match TBasic BU64 with TBasic BU8 => true | _ => false end = false /\ rd_u32 [0; 1; 0; 0; 9] = Ok (65536, [9]).
-Proof. split; reflexivity. Qed.
-(** witness: 4 input bytes, []uint64: 32 GiB requested, then "unexpected EOF" *)
-Theorem C13_alloc_refuted :
-  fst (read (TSlice false (TBasic BU64)) [255; 255; 255; 255]) = OErr EEOF
-  /\ fst (snd (read (TSlice false (TBasic BU64)) [255; 255; 255; 255])) = 34359738360.
-Proof. exact w_alloc. Qed.
-(** witness: 4 input bytes, []struct{}: 2^32-1 iterations *)
-Theorem C13_loop_refuted : snd (snd (read (TSlice false (TStruct [])) (put_u32 4294967295))) = 4294967295.
-Proof. exact w_loop. Qed.
+(** allocation and work.  [cw m a L K] := work m + a * remaining <= a * L + K  /\  remaining <= L.
+    For every type in which no slice has elements that occupy no bytes on the wire ([lin_ty]; in particular
+    every type whose slices hold basic values, strings, or structs with at least one exported field) and EVERY
+    input: the bytes requested from the allocator plus the loop iterations are at most [kA ty] per input
+    byte consumed plus [kK ty], two constants of the TYPE (sizes of its temporaries and elements, fixed array
+    lengths).  A hostile length prefix is rejected before anything is allocated. *)
+Theorem C13_cost_linear_partial ty bs : lin_ty ty = true -> cw (read ty bs) (kA ty) (N.of_nat (length bs)) (kK ty).
+Proof. exact (fun H => cost_linear ty H bs). Qed.
+Theorem C13_work_linear_partial ty bs : lin_ty ty = true -> work (read ty bs) <= kA ty * N.of_nat (length bs) + kK ty.
+Proof. exact (work_linear ty bs). Qed.
+Example C13_cost_linear_example :
+  lin_ty (TStruct [(true, TBasic BStr); (true, TSlice false (TArray 3 (TStruct [(true, TSlice true (TBasic BU8)); (false, TSlice false (TStruct []))])))]) = true.
+Proof. exact ex_lin. Qed.
+Theorem C13_hostile_length_rejected :
+  read (TSlice false (TBasic BU64)) [255; 255; 255; 255] = (OErr EEOF, (0, 0))
+  /\ read (TSlice false (TStruct [])) [255; 255; 255; 255] = (OErr EEOF, (0, 0))
+  /\ read (TSlice true (TBasic BU8)) [255; 255; 255; 255; 1; 2] = (OErr EEOF, (0, 0)).
+Proof. exact w_hostile_length. Qed.
+(** arrays: the temporary and the loop count come from the TYPE (part of [kK]); a wire length that differs is
+    an error before any element is read *)
+Theorem C13_array_cost n e bs : fst (snd (read (TArray n e) bs)) >= n * tsize e /\
+  (forall m t, rd_u32 bs = Ok (m, t) -> m <> n -> read (TArray n e) bs = (OErr EInvalid, (n * tsize e, 0))).
+Proof. exact (array_cost n e bs). Qed.
+(** REFUTED without the guard: a slice of zero-wire-size elements may announce as many elements as bytes
+    remain and consumes only its 4-byte prefix; nested in another slice this repeats per element, so the work
+    is quadratic in the input: 804 input bytes, 79 800 iterations for [][]struct{}, 641 600 bytes requested
+    for [][]struct{ x uint64 } ([bomb k] = outer length k, inner slice i announces 4*(k-i) elements) *)
+Theorem C13_nested_zero_size_refuted :
+  length (bomb 200) = 804%nat
+  /\ snd (snd (read (TSlice false (TSlice false (TStruct []))) (bomb 200))) = 79800
+  /\ fst (snd (read (TSlice false (TSlice false (TStruct [(false, TBasic BU64)]))) (bomb 200))) = 641600
+  /\ lin_ty (TSlice false (TSlice false (TStruct []))) = false.
+Proof. exact w_nested_wire0. Qed.
 
 (** ReadBytes(n)/Skip(n) with a negative caller-supplied n panic (n is not wire data) *)
 Theorem C13_readbytes_negative_refuted : rd_bytes_z (-1) [1; 2; 3] = OPanic WSliceBounds.
@@ -160,27 +147,25 @@ Theorem C13_read_into_clobber_refuted :
   read_into_vars [(TBasic BU8, VN 9); (TBasic BU8, VN 9)] [1] = ([VN 1; VN 9], OErr EEOF).
 Proof. exact w_read_into_clobber. Qed.
 
+Print Assumptions C13_write_total.
 Print Assumptions C13_writeReflect_total.
-Print Assumptions C13_write_total_partial.
-Print Assumptions C13_write_nil_pointer_refuted.
-Print Assumptions C13_write_nil_bytes_pointer.
-Print Assumptions C13_write_from_total_partial.
 Print Assumptions C13_write_from_total.
 Print Assumptions C13_unsupported_is_error.
 Print Assumptions C13_read_total.
 Print Assumptions C13_read_never_crashes.
 Print Assumptions C13_read_into_total.
+Print Assumptions C13_read_call_total.
+Print Assumptions C13_read_nil_target.
 Print Assumptions C13_uvarint_total.
 Print Assumptions C13_varint_total.
 Print Assumptions C13_uvarint_eof.
 Print Assumptions C13_uvarint_overflow.
 Print Assumptions C13_uvarint_bound.
-Print Assumptions C13_read_call_total_partial.
-Print Assumptions C13_read_nil_target_refuted.
-Print Assumptions C13_cost_partial.
-Print Assumptions C13_slice_alloc_is_wire_supplied.
-Print Assumptions C13_alloc_refuted.
-Print Assumptions C13_loop_refuted.
+Print Assumptions C13_cost_linear_partial.
+Print Assumptions C13_work_linear_partial.
+Print Assumptions C13_hostile_length_rejected.
+Print Assumptions C13_array_cost.
+Print Assumptions C13_nested_zero_size_refuted.
 Print Assumptions C13_readbytes_negative_refuted.
 Print Assumptions C13_no_clobber.
 Print Assumptions C13_read_into_vars.
